@@ -14,7 +14,7 @@ pub fn prop() -> Prop {
     Prop {
         id: "C15",
         level: "exploration",
-        rule: "through the public constructors and accessors, in BOTH build profiles (release-like and debug-assertion/overflow-check): every integer of the boundary lattice (round trip, tag, immediacy); both booleans and null; all 81 (entry offset, local count) pairs from two 9-value boundary sets; 112 float bit patterns (sign x 7 exponents x 4 mantissas, compared by bits); all strings of <= 3 characters over {a, é, 😀, NUL}; strings and integer arrays of every length around each power of two up to 65 537; all arrays of depth <= 2 and width <= 2 over four element values; alignment of every heap box; strings of 7..65 bytes against a copy and against a copy with one byte changed at every position; strings and arrays changed in place through the mutable accessors (7 edits x every small string: equal to a fresh value of the new content, different from the old); and the complete 200 x 200 cross product of a fixed 200-value set: == holds iff same type and same content (NaN excepted) and never panics for scalars, text and functions. A case = one value or one pair; all are non-trivial; distinct = distinct case descriptions",
+        rule: "through the public constructors and accessors, in BOTH build profiles (release-like and debug-assertion/overflow-check): every integer of the boundary lattice (round trip, tag, immediacy); ~9 000 ordinary integers (multiples of 2^31 / 2^32 with offsets, round decimals, a fixed multiplicative sequence) incl. equality between neighbours; 4 256 more float bit patterns; seven more function descriptors; strings of 100..1000 bytes differing at every single position; both booleans and null; all 81 (entry offset, local count) pairs from two 9-value boundary sets; 112 float bit patterns (sign x 7 exponents x 4 mantissas, compared by bits); all strings of <= 3 characters over {a, é, 😀, NUL}; strings and integer arrays of every length around each power of two up to 65 537; all arrays of depth <= 2 and width <= 2 over four element values; alignment of every heap box; strings of 7..65 bytes against a copy and against a copy with one byte changed at every position; strings and arrays changed in place through the mutable accessors (7 edits x every small string: equal to a fresh value of the new content, different from the old); and the complete 200 x 200 cross product of a fixed 200-value set: == holds iff same type and same content (NaN excepted) and never panics for scalars, text and functions. A case = one value or one pair; all are non-trivial; distinct = distinct case descriptions",
         assumptions: &["heap values are created through a GC obtained from the facade re-export (verif::GC)", "array == array is outside the property (scalars, text and functions only)"],
         run,
         replay,
@@ -115,6 +115,91 @@ fn run(sh: &mut Shard) {
             (o.as_int() as i64, o.tag(), o.is_heap_allocated())
         });
         check(sh, format!("int {i}"), matches!(&r, Ok((v, Type::Int, false)) if v == i), || format!("read back {r:?}"));
+    }
+    // ordinary integers: every multiple of 2^32 and of 2^31 in the range with small offsets, the i32 / u32
+    // borders on both sides of zero, round decimals, and 4 096 values from a fixed multiplicative sequence
+    // (a complete, fixed set: every member is checked); also equality and inequality between neighbours
+    {
+        let mut ord: Vec<i64> = Vec::new();
+        let max = (1i64 << 60) - 1;
+        for m in -40i64..=40 {
+            for off in [-2i64, -1, 0, 1, 2, 12345] {
+                ord.push(m * (1 << 31) + off);
+                ord.push(m * (1 << 32) + off);
+                ord.push(m * 3 * (1 << 32) + off);
+            }
+        }
+        for k in 0..=17u32 {
+            for m in [1i64, 3, 7, 9] {
+                ord.push(m * 10i64.pow(k));
+                ord.push(-m * 10i64.pow(k));
+            }
+        }
+        let mut x: u64 = 0x9E37_79B9_7F4A_7C15;
+        for _ in 0..4096 {
+            x = x.wrapping_mul(6364136223846793005).wrapping_add(1442695040888963407);
+            let v = (x >> 3) as i64 % max;
+            ord.push(v);
+            ord.push(-v);
+        }
+        ord.retain(|v| *v >= -max - 1 && *v <= max);
+        ord.sort();
+        ord.dedup();
+        for w in ord.windows(2) {
+            let (a, b) = (w[0], w[1]);
+            let r = guarded(|| {
+                let (oa, ob) = (Object::int(a as isize), Object::int(b as isize));
+                (oa.as_int() as i64, oa.tag(), oa.is_heap_allocated(), oa == ob, oa != ob, oa == Object::int(a as isize))
+            });
+            check(sh, format!("ordinary int {a} (next {b})"), matches!(&r, Ok((v, Type::Int, false, false, true, true)) if *v == a), || format!("{r:?}"));
+        }
+    }
+    // floats: 4 096 bit patterns from a fixed multiplicative sequence, and every pattern whose low 3 or high
+    // exponent bits are all set for a handful of exponents
+    {
+        let mut pats: Vec<u64> = Vec::new();
+        let mut x: u64 = 0xD1B5_4A32_D192_ED03;
+        for _ in 0..4096 {
+            x = x.wrapping_mul(6364136223846793005).wrapping_add(1442695040888963407);
+            pats.push(x);
+        }
+        for exp in [0u64, 1, 0x3FE, 0x3FF, 0x400, 0x7FD, 0x7FE, 0x7FF] {
+            for mant in [0u64, 1, 7, 8, 0xF, 0x7_FFFF_FFFF_FFF8, 0xF_FFFF_FFFF_FFFF, 0x8_0000_0000_0000, 0x8_0000_0000_0007, 0x1234_5678_9ABC] {
+                for sign in [0u64, 1] {
+                    pats.push((sign << 63) | (exp << 52) | mant);
+                }
+            }
+        }
+        for bits in pats {
+            let r = guarded(|| {
+                let o = Object::float(f64::from_bits(bits), &mut gc);
+                (o.as_f64().to_bits(), o.tag(), o.is_heap_allocated(), verif::addr(o) & 7)
+            });
+            check(sh, format!("float bits {bits:016x}"), matches!(&r, Ok((b, Type::Float, true, 0)) if *b == bits), || format!("{r:?}"));
+        }
+    }
+    // function descriptors beyond the boundary pairs
+    for (off, n) in [(40_000u32, 300u16), (32_768, 256), (65_535, 65_535), (33_000, 1_000), (70_000, 257), (1 << 20, 40_000), (12_345, 54_321)] {
+        let r = guarded(|| {
+            let o = Object::function(off, n);
+            (o.as_function(), o.tag(), o.is_heap_allocated())
+        });
+        check(sh, format!("function ({off}, {n})"), matches!(&r, Ok(([a, b], Type::Function, false)) if *a == off && *b == n as u32), || format!("{r:?}"));
+    }
+    // long strings differing in one byte far from both ends
+    for len in [100usize, 129, 257, 1000] {
+        let base: String = (0..len).map(|i| (b'a' + (i % 26) as u8) as char).collect();
+        for p in 0..len {
+            let mut other = base.clone().into_bytes();
+            other[p] = b'Z';
+            let other = String::from_utf8(other).unwrap();
+            let r = guarded(|| {
+                let a = Object::string(base.as_str(), &mut gc);
+                let b = Object::string(other.as_str(), &mut gc);
+                (a == b, a != b)
+            });
+            check(sh, format!("strings of {len} bytes differing at byte {p}"), matches!(r, Ok((false, true))), || format!("{r:?}"));
+        }
     }
     // immediates
     let r = guarded(|| (Object::null().tag(), Object::null().is_heap_allocated()));
